@@ -10,6 +10,7 @@
 -/
 import BS.Impl.Seek
 import BS.Impl.Reader
+import BS.Impl.Repair
 
 namespace BS.Gen
 open BS.Impl
@@ -137,6 +138,22 @@ structure Index where
 def Rs.indexOf (v : DataView) : Index := ⟨v.entries, v.lastFull⟩
 /-- writing a changed `Index` back into the view (`self.index.update(..)` inside `Data`) -/
 def Rs.withIndex (v : DataView) (i : Index) : DataView := { v with entries := i.entries, lastFull := i.last_timestamp }
+
+
+
+/-- `a % b` (panics for `b = 0`) -/
+def Rs.rem (a b : Nat) : R Nat := if b = 0 then .error .panic else .ok (a % b)
+/-- `set_len(n)`: keep the first `n` bytes (a longer length fills with zeros) -/
+def Rs.setLen (f : Bytes) (n : Nat) : Bytes := f.take n ++ List.replicate (n - f.length) 0
+/-- a repair stage that is not translated: `some d` = it cut the file to `d` and reports `true` -/
+def Rs.optStep (o : Option Bytes) (file : Bytes) : R (Bytes × Bool) :=
+  match o with
+  | some d => .ok (d, true)
+  | none => .ok (file, false)
+/-- what `FileWithInlineMeta::new` returns: the (repaired) file and the payload size -/
+structure FileView where
+  file_handle : Bytes
+  payload_size : Nat
 
 
 end BS.Gen
